@@ -229,6 +229,7 @@ func (ex *Exec) writeEvidence(cfg *PropConfig, tier string, seed int, reps []*Fu
 		"vacuous":                  vacuous,
 		"known_findings_matched":   knownMatched,
 		"samples":                  samples,
+		"bounded_assumption_checks": axLines,
 		"undecided_clauses":        cfg.Undecided,
 		"load_seconds":             round2(loadS),
 		"generation_seconds":       round2(genS),
